@@ -522,6 +522,52 @@ func c13exec(c *h.Ctx, cs *h.Case) {
 				objs = append(objs, o)
 			}
 			cs.Impl = append(cs.Impl, obs)
+		case "toml":
+			// the current roster through its TOML form (Roster.Toml / RosterToml.Roster): the id travels as a field, every
+			// identity is rebuilt from address and server key.  Oracle: the id is carried, the server keys come back in
+			// order, and — for a roster without service keys — the id still is the id of the list that came back.  With
+			// service keys it is not (they are not part of the TOML form): known finding, witness in the corpus.
+			if len(tk) != 2 || roster == nil || rosterKind != 'e' {
+				bad()
+				continue
+			}
+			back := roster.Toml(fix.Suite).Roster(fix.Suite)
+			hasSvc, kept := false, 0
+			for _, m := range members {
+				hasSvc = hasSvc || len(m) > 1
+			}
+			if !back.ID.Equal(roster.ID) {
+				cs.Fail("roster-toml-id-not-carried", "the roster read back from the TOML form carries the id "+back.ID.String()+", the original "+roster.ID.String())
+			}
+			same := len(back.List) == len(roster.List)
+			for i := 0; same && i < len(back.List); i++ {
+				same = back.List[i] != nil && back.List[i].Public != nil && back.List[i].Public.Equal(roster.List[i].Public) &&
+					back.List[i].Address == roster.List[i].Address
+				if same {
+					kept += len(back.List[i].ServiceIdentities)
+				}
+			}
+			if !same {
+				cs.Fail("roster-toml-list", "the roster read back from the TOML form does not list the same servers (keys, addresses) in the same order")
+			}
+			g, err := back.GetID()
+			gs := "err"
+			if err == nil {
+				gs = g.String()
+				if same && !onet.NewRoster(back.List).ID.Equal(g) {
+					nondet("roster", "GetID and NewRoster disagree on the list read back from the TOML form")
+				}
+			}
+			switch faithful := err == nil && g.Equal(back.ID); {
+			case faithful:
+			case !hasSvc:
+				cs.Fail("roster-toml-id-not-of-list:plain", "a roster without service keys read back from its TOML form carries the id "+back.ID.String()+" but GetID() of its list is "+gs)
+			case cs.Class == "witness-roster-toml":
+				cs.Fail("roster-toml-id-not-of-list:[A{svc:B},C]", "the roster [A with service key B, C] read back from its TOML form carries the id "+back.ID.String()+" but lists no service key: GetID() of its list is "+gs)
+			default:
+				c.Count("known-class toml (service keys not in the TOML form)")
+			}
+			cs.Impl = append(cs.Impl, fmt.Sprintf("id=%s getid=%s svc=%d", back.ID.String(), gs, kept))
 		case "subset":
 			if len(tk) != 4 || roster == nil {
 				bad()
@@ -1339,6 +1385,51 @@ func c13gen(c *h.Ctx, yield func(*h.Case)) {
 		c.Count(fmt.Sprintf("roster size %d-%d", n/5*5, n/5*5+4))
 		emit(class, ops...)
 	}
+	// --- rosters through their TOML form: without service keys (the id must stay the id of the list), with (known class),
+	// after Concat / NewRosterWithRoot / rotation (derived rosters travel too)
+	for i := 0; i < c.Pick(60, 900); i++ {
+		n := 1 + r.Intn(8)
+		withSvc := i%2 == 1
+		var ks []string
+		var ms [][]int
+		for j := 0; j < n; j++ {
+			ms = append(ms, []int{len(ks)})
+			ks = append(ks, edKey())
+			if withSvc && r.Intn(2) == 0 {
+				for q := 0; q <= r.Intn(2); q++ {
+					ms[j] = append(ms[j], len(ks))
+					ks = append(ks, edKey())
+				}
+			}
+		}
+		extra := len(ks)
+		ks = append(ks, edKey())
+		show := func(ms [][]int) string {
+			var s []string
+			for _, m := range ms {
+				var f []string
+				for _, k := range m {
+					f = append(f, strconv.Itoa(k))
+				}
+				s = append(s, strings.Join(f, "/"))
+			}
+			return strings.Join(s, " ")
+		}
+		ops := []string{"c13 keys " + strings.Join(ks, " "), "c13 roster " + show(ms), "c13 toml"}
+		switch r.Intn(4) {
+		case 0:
+			ops = append(ops, fmt.Sprintf("c13 concat %d", extra), "c13 toml")
+		case 1:
+			ops = append(ops, fmt.Sprintf("c13 withroot %d", r.Intn(n)), "c13 toml")
+		case 2:
+			ops = append(ops, fmt.Sprintf("c13 rotate %d", 1+r.Intn(n)), "c13 toml")
+		}
+		class := "roster-toml plain"
+		if withSvc {
+			class = "roster-toml svc"
+		}
+		emit(class, ops...)
+	}
 	// --- tokens: base + one field changed (each of the six) + two fields swapped ----------------
 	for i := 0; i < c.Pick(400, 10000); i++ {
 		var f [6]string
@@ -1584,6 +1675,8 @@ var c13witnesses = [][]string{
 	// one server A with service key B, and the two servers A, B
 	{"witness-roster", "c13 keys " + c13kR + " " + c13kA, "c13 roster 0/1", "c13 roster 0 1"},
 	// r(a, b(c)) with b = x‖01 and r(a(d), c) with d = 01‖x: different servers, same tree id
+	// [A with service key B, C] through Roster.Toml / RosterToml.Roster: the id travels, the service key does not
+	{"witness-roster-toml", "c13 keys " + c13kR + " " + c13kA + " " + c13kB, "c13 roster 0/1 2", "c13 toml"},
 	{"witness-tree-shift", "c13 keys " + c13kR + " " + c13kA + " " + c13kX1 + " " + c13k1X + " " + c13kC, "c13 roster 0 1 2 3 4",
 		"c13 tree 0:2,1:0,2:1,4:0", "c13 tree 0:2,1:1,3:0,4:0"},
 }
